@@ -20,6 +20,7 @@ class Prop(SeqProp):
     rule = ("Buffer/PrintBuffer: random permutations of 0..n-1 (n<=12) with drain points / flush / clear / re-put of an emitted "
             "serial interleaved (thorough: all permutations up to n=6 with all drain-point subsets, exhaustive); CircularBuffer: "
             "capacities 1-6 with random put/clear/get/list; every result compared with the Lean model and a reference; "
+            "payloads include falsy objects (None, 0, '', (), False, 0.0; the empty line for PrintBuffer); "
             "non-trivial = at least 3 feeds or puts")
     trusted_base = ["Lean 4.33.0 kernel", "axioms: propext, Classical.choice, Quot.sound (audited per theorem)",
                     "hand-written model Model/Buffers.lean tied to buffers.py / circular_buffer.py by this correspondence run"]
